@@ -19,6 +19,13 @@ def correspondence(ctx):
     st.update(st2)
     st.update(st3)
     st["elements_compared"] += st2["dimension_elements"] + st3["dtype_elements"]
+    # Awkward momentum arrays whose RECORDS keep the raw momentum field names (ak.zip(..., with_name="Momentum4D")): a single-vector operation,
+    # then every reader of the result, against the same array spelled geometrically (which value_lattice ties to the object backend)
+    from harness import c14
+    rb, rn = c14.raw_awkward_spellings("ops")
+    st["raw_record_two_step_reads"] = rn
+    st["elements_compared"] += rn
+    rawcode = c14.RAW_REPLAY.replace("raw_awkward_spellings()", "raw_awkward_spellings('ops')")
     dis = [f"{a} :: {b}" for a, b, _ in bad[:12]]
     fails = []
     seen = set()
@@ -27,8 +34,11 @@ def correspondence(ctx):
             continue
         seen.add(k)
         fails.append({"key": k, "what": f"{a}: {b}"[:400], "code": replay_code(ctx.seed, ctx.tier, k)})
+    for d in rb[:3]:
+        dis.append(d[:300])
+        fails.append({"key": "awkward-raw-two-step:" + d.split(":")[1].strip()[:20], "what": d[:400], "code": rawcode})
     st["traces_validated_against_impl"] = st["elements_compared"]
-    return {"ok": not bad, "disagreements": dis, "failing_inputs": fails[:5], "stats": st, "samples": samples}
+    return {"ok": not bad and not rb, "disagreements": dis, "failing_inputs": fails[:5], "stats": st, "samples": samples}
 
 
 def replay_code(seed, tier, key):
